@@ -372,6 +372,7 @@ func checkC07(w *World) {
 		}
 	}
 	w.floor(P, "R07.5", 25)
+	w.argOrContext(P, f)
 
 	// R07.6 callee table
 	w.stringCallees(P, f)
@@ -715,6 +716,9 @@ func (w *World) argAccess(P, bn string, ar int, impl *ssa.Function) {
 						}
 					})
 				}
+				if sc := staticCallee(c); sc != nil && fnPkgKey(sc) == "exec" && helperReadsContext(sc, c, impl, 0) {
+					usesCtx = true
+				}
 				if _, isR := isMethodCall(c, "Result"); isR {
 					usesCtx = true
 				}
@@ -876,4 +880,43 @@ func (w *World) stringCallees(P string, f *Facts) {
 		w.check(P, "R07.6", "builtin concat", impl.Pos(), ok, fmt.Sprintf("writes String() of each argument in ascending order: %v", ok))
 	}
 	w.floor(P, "R07.6", 7)
+}
+
+// helperReadsContext: the call hands a context parameter of the caller to a helper of the package that reads the
+// context result (position, size) from it, directly or one helper further.
+func helperReadsContext(sc *ssa.Function, c *ssa.Call, caller *ssa.Function, depth int) bool {
+	if depth > 3 || len(sc.Blocks) == 0 {
+		return false
+	}
+	ctx := map[ssa.Value]bool{}
+	for i, a := range c.Call.Args {
+		if i >= len(sc.Params) {
+			break
+		}
+		if _, isI := a.Type().Underlying().(*types.Interface); !isI {
+			continue
+		}
+		if _, isP := a.(*ssa.Parameter); isP {
+			ctx[sc.Params[i]] = true
+		}
+	}
+	if len(ctx) == 0 {
+		return false
+	}
+	found := false
+	allInstrs(sc, func(in ssa.Instruction) {
+		c2, ok := in.(*ssa.Call)
+		if !ok {
+			return
+		}
+		for _, m := range []string{"Result", "ContextPosition", "ContextSize"} {
+			if recv, is := isMethodCall(c2, m); is && ctx[recv] {
+				found = true
+			}
+		}
+		if sc2 := staticCallee(c2); sc2 != nil && fnPkgKey(sc2) == "exec" && helperReadsContext(sc2, c2, sc, depth+1) {
+			found = true
+		}
+	})
+	return found
 }
